@@ -486,6 +486,29 @@ def dead_connection_case(seed):
     return desc, fails
 
 
+def h2_reset_idle_witness():
+    """F66: the client resets the only open stream of an HTTP/2 connection; the connection has no open streams from then on,
+    but nobody tells the server (no Updated event on that path): the idle timer is never started."""
+    import h2.config
+    import h2.connection
+
+    from . import c16
+
+    T = 2.0
+    c = h2.connection.H2Connection(h2.config.H2Configuration(client_side=True, header_encoding=None))
+    c.initiate_connection()
+    c.send_headers(1, [(b":method", b"POST"), (b":path", b"/a"), (b":scheme", b"https"), (b":authority", b"x")])
+    opening = c.data_to_send()
+    c.reset_stream(1)
+    rst = c.data_to_send()
+    script = [("send", opening), ("sleep", 1.0), ("send", rst), ("sleep", 10 * T)]
+    out = {}
+    for backend, run in (("asyncio", W.run_asyncio), ("trio", W.run_trio)):
+        res = run(c16.scripted([[("recv",), ("return",)]]), make_cfg(T), script, alpn="h2", tail=5.0)
+        out[backend] = closed_at(res)
+    return out, 1.0 + T
+
+
 # ------------------------------------------------------------------ known findings: error responses / prior knowledge
 def error_response_case(kind):
     """F10 / F11: after a server-generated error response inside a stream, and on a cleartext prior-knowledge
@@ -597,6 +620,11 @@ def known_still_fails(k):
         out, T = error_response_case(kind)
         if all(v is None or v > T + 1e-6 for v in out.values()):
             return f"{kind}: closed at {out} (keep_alive_timeout {T})"
+        return None
+    if sig.startswith("F66:"):
+        out, due = h2_reset_idle_witness()
+        if all(v is None or v > due + 1e-6 for v in out.values()):
+            return f"closed at {out}, due at {due}"
         return None
     return None
 
